@@ -211,6 +211,10 @@ def run_world(case, sdk, checks):
             if k == "describe" and ("lifecycle" in checks or "index" in checks):
                 check_describe(w, i, t, o)
             continue
+        if name == "updateTable" and op.get("retype"):
+            if k != "err" and ({"lifecycle", "index", "keys", "map", "observe"} & set(checks)):
+                w.flag(i, "key-attribute-retyped", "UpdateTable accepted attribute definitions that give a key attribute in use another type", impl=json.dumps(o)[:100])
+            continue
         if name == "updateTable":
             # apply the changes that went through: stop at the first one that must fail
             for ch in op.get("changes", []):
